@@ -13,7 +13,7 @@ def c10_worker(kp, job):
     seed, idx = job
     rng = random.Random(seed * 275604541 + idx)
     plain = idx % 4 != 3
-    g = docs.gen_doc(rng, force_clef=True, plain_acc=plain, mid_signatures=True, max_spines=3)
+    g = docs.gen_doc(rng, force_clef=True, plain_acc=plain, mid_signatures=True, max_spines=3, clef_in_split=0.5 if idx % 2 == 0 else 0.0)
     text = g.text
     bad = docs.bad_cells(kp, text)
     try:
